@@ -68,7 +68,9 @@ impl<S: Storage> Storage for FaultyStore<S> {
         keyspace: &str,
         keys: impl Iterator<Item = Key> + Send,
     ) -> Result<(), BulkMutationError<Self::Error>> {
-        let keys: Vec<Key> = keys.collect();
+        // the set hands the purged tombstones over in hash-map order: positions in a directive refer to ascending key order
+        let mut keys: Vec<Key> = keys.collect();
+        keys.sort_unstable();
         match self.take() {
             Directive::None | Directive::Gate => self
                 .inner
